@@ -13,3 +13,12 @@ package assets
 
 //@ interface Group.Name
 //@   pure
+
+//@ interface Channel.UUID
+//@   pure
+
+//@ interface Channel.Roles
+//@   pure
+
+//@ interface Channel.Schemes
+//@   pure
